@@ -88,15 +88,17 @@ def tlvTail (serial extra : List Nat) : List Nat :=
         else [0x2D, 0x00] ++ le16 serial.length ++ serial)
     ++ extra ++ [0x18]
 
-/-- `BitReader::read(len)` at absolute bit position `pos`: checked length, then the loop
-`value |= ((data[bit_pos / 8] >> (bit_pos % 8)) & 1) << i`; `data[..]` is a checked index. -/
+/-- one iteration of the `BitReader::read` loop: `value |= ((data[bit_pos / 8] >> (bit_pos % 8)) & 1) << i`
+with `bit_pos = pos + i`; `data[..]` is a checked index -/
+def readStep (data : List Nat) (pos : Nat) (value i : Nat) : Except Err Nat :=
+  match data[(pos + i) / 8]? with
+  | none => .error .panic
+  | some byte => .ok (value + 2 ^ i * (byte / 2 ^ ((pos + i) % 8) % 2))
+
+/-- `BitReader::read(len)` at absolute bit position `pos`: checked length, then the loop -/
 def readBits (data : List Nat) (pos len : Nat) : Except Err Nat :=
   if pos + len > data.length * 8 then .error .invalidData
-  else
-    (List.range len).foldlM (fun (value : Nat) (i : Nat) =>
-      match data[(pos + i) / 8]? with
-      | none => .error .panic
-      | some byte => .ok (value + 2 ^ i * (byte / 2 ^ ((pos + i) % 8) % 2))) 0
+  else (List.range len).foldlM (readStep data pos) 0
 
 /-- `strip_prefix("MT:")` -/
 def stripPrefix (s : List Nat) : Option (List Nat) :=
